@@ -13,6 +13,9 @@ type FileSpec struct {
 type RevSpec struct {
 	V       string `json:"v"`
 	Partial bool   `json:"partial,omitempty"`
+	// Died: the partial revision carries no error text (the process died, or a later revision write
+	// failed, instead of a statement failing). The documented decision is the same.
+	Died bool `json:"died,omitempty"`
 }
 
 type Config struct {
